@@ -15,7 +15,7 @@ func (node *tagSSINode) Execute(ctx *ExecutionContext, writer TemplateWriter) *E
 		includeCtx.Update(ctx.Public)
 		includeCtx.Update(ctx.Private)
 
-		err := node.template.execute(includeCtx, writer, ctx.depth+1, ctx)
+		err := node.template.execute(includeCtx, writer, ctx)
 		if err != nil {
 			return err.(*Error)
 		}
